@@ -195,6 +195,20 @@ pub fn g4() -> Vec<FamGrammar> {
             out.push(FamGrammar { id: g.name.clone(), g, alphabet: vec![lit("a"), lit("b"), lit("c"), lit("d"), lit("e")], has_ws_extras: true, kind: "G4", op_table: None });
         }
     }
+    // three states with one core that conflict pairwise (a 3x3 latin square of prefixes and look-aheads): a partition of the
+    // equal-core states has to be refined more than once
+    for (bi, body) in [s("c"), seq(vec![s("c"), opt(s("c"))])].into_iter().enumerate() {
+        let names = ["rx", "ry", "rz"];
+        let prefixes = ["a", "b", "g"];
+        let looks = ["d", "e", "f"];
+        let mut alts = vec![];
+        for (pi, p) in prefixes.iter().enumerate() { for (li, l) in looks.iter().enumerate() {
+            alts.push(seq(vec![s(p), field(["fx", "fy", "fz"][(pi + li) % 3], sym(names[(pi + li) % 3])), s(l)]));
+        } }
+        let mut g = G::new(&format!("g4_latin3_{}", bi)).rule("top", choice(alts));
+        for n in names { g = g.rule(n, body.clone()); }
+        out.push(FamGrammar { id: g.name.clone(), g, alphabet: vec![lit("a"), lit("b"), lit("g"), lit("c"), lit("d"), lit("e"), lit("f")], has_ws_extras: true, kind: "G4", op_table: None });
+    }
     out
 }
 
